@@ -15,15 +15,15 @@ CHECKS = {
 }
 
 CHECKS.update({
-    'C01': dict(level='other', technique='abstract interpretation of MIR per operand-pair cell vs exact rational oracle; symbolic bit-vector rounding cells with one symbolic operand; directed probe families',
+    'C01': dict(level='other', technique='abstract interpretation of MIR per operand-pair cell vs exact rational oracle; symbolic bit-vector rounding cells with one symbolic operand; enumeration of singleton cells (P8E0: every operand pair) and directed probe families',
         text=('Decides the NaR/zero algebra and guard evaluation order of + - * / for all operand pairs of each control-determinate cell; proves a +/- b correctly rounded for a constant a (2^s*1.0 or 2^s*1.1..1) and every b of each regime cell '
               'for which the exact result is a routing of the bits of b, and b*2^t, 2^t*b, b/2^t for every b (rounding cells with one symbolic operand: alignment, sticky collection, carry, borrow, rounding, saturation; both operand orders and signs); '
-              'rounding-matrix and specification-critical operand pairs are decided singly by constant propagation. Pairs of two dense significands and the multiplier/divider beyond the probed pairs are NOT decided.'), design='4/C01'),
+              'all 2^16 operand pairs of the four P8E0 operations, and rounding-matrix and specification-critical operand pairs of P16E1 / P32E2, are decided singly by constant propagation. P16E1 / P32E2 pairs of two dense significands and the multiplier/divider beyond the probed pairs are NOT decided.'), design='4/C01'),
     'C02': dict(level='proof', technique='symbolic bit-vector abstract interpretation of MIR on rounding cells (sign x scale x rounding situation; remaining bits symbolic): result vector == correctly rounded encoding, may-mode path enumeration for undecided tests, concrete confirmation before any alarm; interval cells for zero/subnormal/inf/NaN',
         text=('Every finite non-zero normal f32/f64 lies in exactly one rounding cell (sign, exponent, rounding situation of the target) on which the six from_f32/from_f64 conversions return bit-for-bit the posit-rule rounding (nearest, ties to even encoding, saturating, never zero); zeros, subnormals, infinities and NaNs are decided on interval cells. Hence from_f32(x) == from_f64(x as f64). Quick tier samples the sticky position / carry run for f64->P32E2 only; thorough takes every cell.'), design='4/C02'),
-    'C06': dict(level='other', technique='abstract interpretation per cell + literal-table agreement with exact integer square roots + constant propagation at hard-to-round arguments',
-        text=('P8E0::sqrt decided for all 256 inputs (table indexing term + every table entry vs exact root); P16E1/P32E2: NaR, negative, zero and literal cut-point cells. '
-              'perfect squares and the hardest-to-round P32E2 arguments around one decided singly. Newton-Raphson general path NOT decided (a seeded 1-ulp degradation of the iteration is known to escape).'), design='4/C06'),
+    'C06': dict(level='other', technique='abstract interpretation per cell + literal-table agreement with exact integer square roots + enumeration of singleton cells (constant propagation through the MIR): every P16E1 encoding, hard-to-round P32E2 arguments',
+        text=('P8E0::sqrt decided for all 256 inputs (table indexing term + every table entry vs exact root); P16E1::sqrt decided for all 2^16 encodings (negative half as one cell, every non-negative encoding singly); P32E2: NaR, negative, zero and literal cut-point cells, '
+              'perfect squares, the hardest-to-round arguments around one and the hardest-to-round arguments next to the edges / middle of every bin of the reciprocal-root table decided singly. The P32E2 Newton-Raphson path between those arguments is NOT decided.'), design='4/C06'),
     'C07': dict(level='proof', technique='symbolic bit-vector abstract interpretation of MIR on rounding cells (sign x scale x rounding situation; remaining bits symbolic): result vector == correctly rounded encoding, may-mode path enumeration for undecided tests, concrete confirmation before any alarm',
         text=('Every integer of the ten source types (cells: sign x leading-one position x rounding situation) converts to the posit-rule rounding of its value for P8E0/P16E1/P32E2, and every real-valued posit pattern (cells: sign x regime x exponent x rounding situation at the units position) converts to the nearest integer, ties to even, clamped to i32/u32/i64/u64; zero separately. to_*(NaR) is excluded (convention left open).'), design='4/C07'),
     'C08': dict(level='proof', technique='bit-routing equality per regime cell (widening, widen-then-narrow) + symbolic bit-vector abstract interpretation of MIR on rounding cells (sign x scale x rounding situation; remaining bits symbolic): result vector == correctly rounded encoding, may-mode path enumeration for undecided tests, concrete confirmation before any alarm',
@@ -44,7 +44,7 @@ CHECKS.update({
 CHECKS.update({
     'C10': dict(level='proof', technique='abstract interpretation on order cells partitioning all argument tuples + comparison-only dataflow check',
         text=('eq/cmp/lt/le/gt/ge/min/max/clamp, derived PartialEq/PartialOrd/Ord, Float::max/min, neg, abs, signum, copysign, is_sign_*, is_zero, is_nar/is_nan/is_finite, classify '
-              'for P8E0/P16E1/P32E2 and the comparison fns + Neg of PxE1/PxE2 are evaluated exactly on a partition of all argument tuples; every obligation is discharged and the result '
+              'for P8E0/P16E1/P32E2 and the comparison fns + Neg of PxE1/PxE2 (these also per width on N-bit order cells: N in {2,3,8,16,31,32} quick, every N thorough) are evaluated exactly on a partition of all argument tuples; every obligation is discharged and the result '
               '(an argument, its negation or a constant) agrees with the order of the represented reals.'), design='4/C10'),
 })
 
@@ -55,7 +55,7 @@ CHECKS.update({
         design='4/C03'),
     'C04': dict(level='other', technique='abstract interpretation on accumulator-state x operand cells, term-mode expansion of operand spellings, dependence slices, symbolic bit-vector cells: rounding cells of the accumulator (to_posit), exact accumulator image of p * 2^t (QIMAGE), exact placement (QPLACE); directed accumulate sequences',
         text=('is_zero/is_nar decided for every accumulator state (all limbs), to_posit returns 0/NaR exactly there; NaR stickiness and zero operands for all base spellings; every tuple/array `+=`/`-=` spelling expands to the '
-              'expected products with the expected sign; every base spelling applied to the cleared quire with one posit (other factor ONE) leaves exactly +/-p for every p; accumulated value depends on flag, operands, accumulator; to_posit is proved to be the single posit-rule rounding of the fixed-point value of the state on rounding cells of the accumulator (every state for Q8E0; every leading-one position with sampled sticky / lowest-set-bit positions for Q16E1 and Q32E2); accumulate sequences whose exact sum is a tie, a near-tie or cancels are decided singly. After accumulating p * 2^t (every posit p, symbolic) onto the cleared quire or onto a constant with a carry chain the accumulator holds exactly the fixed-point image of the sum (QIMAGE). The accumulate of two dense significands onto an arbitrary accumulator is NOT decided beyond the probed sequences.'), design='4/C04'),
+              'expected products with the expected sign; every base spelling applied to the cleared quire with one posit (other factor ONE) leaves exactly +/-p for every p; accumulated value depends on flag, operands, accumulator; to_posit is proved to be the single posit-rule rounding of the fixed-point value of the state on rounding cells of the accumulator (every state for Q8E0; every leading-one position - quick tier for Q32E2: every 4th plus the four positions at each limb boundary - with sampled sticky / lowest-set-bit positions for Q16E1 and Q32E2); accumulate sequences whose exact sum is a tie, a near-tie or cancels are decided singly. After accumulating p * 2^t (every posit p, symbolic) onto the cleared quire or onto a constant with a carry chain the accumulator holds exactly the fixed-point image of the sum (QIMAGE). The accumulate of two dense significands onto an arbitrary accumulator is NOT decided beyond the probed sequences.'), design='4/C04'),
     'C12': dict(level='other', technique='term-mode evaluation + state-cell abstract interpretation + symbolic bit routing per regime cell (round trip, exact placement of a single posit)',
         text=('from_bits(to_bits(q)) = q, clear(), neg() on every zero/non-zero limb pattern (incl. 512-bit Q32E2), the to_posit / -= alternation of into_two/three_posits, From<P> for Q = ZERO += (p, ONE); '
               'posit->quire->posit proved the identity for every P8E0, P16E1 and P32E2 bit pattern (regime cells refined by the lowest set fraction bit); q += p / q -= p on the cleared quire leave exactly +p / -p for every p. Exactness of the subtractions inside the residual split for a non-zero accumulator NOT decided.'), design='4/C12'),
@@ -68,16 +68,16 @@ CHECKS.update({
     'C13': dict(level='other', technique='abstract interpretation per bound N on N-bit pattern cells + unit/layout dataflow (R8) + selector dependence slice (R5) + symbolic bit-vector rounding cells with one symbolic operand + directed probe families',
         text=('NaR/zero algebra, N==2 branches and guard cells of + - * / mul_add mul_sub sub_product sqrt round of PxE1<N>/PxE2<N> per bound N (quick: 8 widths, thorough: all 31); '
               'exponent extraction and regime scaling must use the units of the decoding type; the kernel result must depend on the selector. N-bit rounding on the general path and the '
-              'rounding cells with one symbolic operand (as in C01 / C05) on PxE2<N> + - * / and the fused family and on PxE1<N> * / for N in {8,32} (thorough: 16 too); rounding-matrix, fused and sparse-product probes of the N-bit format decided singly for N in {5,8,16,32}. PxE2<32>==P32E2 / PxE1<16>==P16E1 equivalences are NOT decided. 24 genuine defects of the generic kernels are listed as known findings.'), design='4/C13'),
+              'rounding cells with one symbolic operand (as in C01 / C05) on PxE2<N> + - * / and the fused family and on PxE1<N> * / for N in {8,32} (thorough: 16 too); rounding-matrix, fused and sparse-product probes of the N-bit format decided singly for N in {5,8,16,32}; every operand pair of + - * / for N <= 6 (thorough: <= 8) and every operand of sqrt / round for N <= 12 (thorough: <= 16) decided singly. PxE2<32>==P32E2 / PxE1<16>==P16E1 equivalences are NOT decided. 24 genuine defects of the generic kernels are listed as known findings.'), design='4/C13'),
     'C14': dict(level='other', technique='abstract interpretation per bound N (and per (M,N) pair) on source cells + bit routing per regime cell for to_f64 + symbolic bit-vector rounding cells for the posit <-> posit conversions',
         text=('Zero/NaR preservation, N==2 and saturation cells, integer heads of all generic-width conversions per bound N; to_f64 exact by routing; fixed <-> generic and generic -> generic posit conversions proved correctly rounded on rounding cells for the analysed widths (sticky position sampled); from_f64 decided on probe floats. '
               'Integer <-> generic conversions beyond the guard cells and quire->PxE2 NOT decided. 12 genuine defects listed as known findings.'), design='4/C14'),
 })
 
 CHECKS.update({
-    'C11': dict(level='other', technique='literal-table agreement + abstract interpretation per cell against a 400-bit oracle with margin test + constant propagation through the kernels at probe encodings',
+    'C11': dict(level='other', technique='literal-table agreement + abstract interpretation per cell against a 400-bit oracle with margin test + enumeration of singleton cells: constant propagation through the kernels at every encoding',
         text=('P8E0::exp and P8E0::ln decided for all 256 inputs (table index term, bounds, every entry vs the correctly rounded value); the ten P16E1 functions decided on every cell in front of '
-              'the polynomial kernels (NaR, domain errors, exact zeros, saturation, rounds-to-1 cut-offs; thorough tier checks every point of each decided cell); kernel probes at every 64th encoding (8th in thorough) and the specification-critical encodings must be correctly rounded. The fixed-point kernels between the probe points are NOT decided.'),
+              'the polynomial kernels (NaR, domain errors, exact zeros, saturation, rounds-to-1 cut-offs; thorough tier checks every point of each decided cell); every one of the 2^16 encodings of each of the ten P16E1 functions is decided singly by constant propagation through the fixed-point kernel and must be the correctly rounded value (400-bit oracle; points it cannot certify are skipped and counted). These are per-input verdicts (enumeration), not a symbolic proof of the kernels.'),
         design='4/C11'),
     'C15': dict(level='other', technique='abstract interpretation (constant / interval propagation through the SLEEF-style bodies) on NaR and out-of-domain cells; constant rule on the Cody-Waite split constants; constant propagation at probe points with run-time trait resolution',
         text=('NaR input gives NaR and out-of-domain arguments (ln/log2 of x<=0, asin/acos of |x|>1) give NaR for the 16 P32E2 functions; the three-part splits of pi, ln 2 and log10 2 used by the argument reductions are correctly rounded splits of the real constants; ULP probes: each function is evaluated by constant propagation through its whole body at about 400 definition-derived points and must stay within the stated bound of the 400-bit oracle. The ULP bounds away from those points are NOT decided (no claim).'),
